@@ -272,3 +272,8 @@ Definition fill_buffer (data : bytes) (n : N) : bytes * bytes :=
   (take k data ++ repeat_n 0 (n - k), drop k data).
 Definition arbitrary_usize (data : bytes) : N * bytes :=
   let p := fill_buffer data 8 in (le_val (fst p), snd p).
+
+(** ** [core::hash::Hash] of the two field types of [Bitfield], as sequences of words written to the hasher (std
+    behaviour, assumed): a byte vector writes its length, then its bytes; a [usize] writes itself. *)
+Definition hash_bytes (state : list N) (bs : bytes) : list N := state ++ len bs :: bs.
+Definition hash_usize (state : list N) (n : N) : list N := state ++ [n].
